@@ -9,14 +9,14 @@ from ..ctx import jdump, repo_frame_bucket
 from ..shrink import ddmin
 
 SHAPES = ["", "abc", "7", "-3", "1.5", "1e9", "99999999999", "999999999999999999999999", "a/b/c", "../x", "{{PAGENAME}}",
-          "2^99999999", "1e999999999", "9e9e9", "xrY", "9999", "5 round -999999999", "1e308*10", "9" * 400]
+          "2^99999999", "9^99999999", "1e999999999", "9e9e9", "xrY", "9999", "5 round -999999999", "1e308*10", "9" * 400]
 LANGS = "de en es fr it ja nl no pl pt simple sv".split()
 
 META = dict(
     level="exploration",
     rule=(
         "(1) call matrix: every upper-case/#-attribute of MagicResolver, every magic_nodes.registry key and every alias in "
-        "siteinfo.magicwords of the site x argument count 0..3 x 19 argument shapes (empty, word, small/negative/decimal/exponent/huge "
+        "siteinfo.magicwords of the site x argument count 0..3 x 20 argument shapes (empty, word, small/negative/decimal/exponent/huge "
         "numbers, paths, nested call, expression bombs), with and without ':'; exhaustive for <= 2 arguments on en+de (thorough: all 12 "
         "languages and 3 arguments for the built-in names), sampled for 3; (2) Hypothesis universes: a page + 0-4 templates over the "
         "template alphabet (braces, pipes, parser-function names, include tags, nowiki, unbalanced braces) with self/mutual recursion "
